@@ -87,11 +87,14 @@ def call_map(c, mesh, extra_layers=False, first_layer=None):
     if c.get("resolution") is not None:
         r = c["resolution"]
         kw["resolution"] = dict(r) if isinstance(r, dict) else r
-    if c.get("operation") is not None:
+    if c.get("operation") is not None and not c.get("operation_on_layer"):
         kw["operation"] = c["operation"]
     if ndim == 3:
         kw["direction"] = direction_object(c.get("direction", "z"))
     layers = [mesh.layer("density") if first_layer is None else first_layer]
+    if c.get("operation_on_layer") and first_layer is None:
+        # the reduction chosen on the layer itself, nothing said about it in the call
+        layers = [mesh.layer("density", operation=c["operation"])]
     if c.get("vector_layer", False):
         layers.append(mesh.layer("velocity", mode="vec"))
     if c.get("later_float_layer", False):
